@@ -107,6 +107,12 @@ FAMILIES = {
               ("Gen_Batch", "Gen_Batch.cfg", "bfs", {"quick": dict(depth=1, consts={"GenSet": '"full"'}),
                                                    "thorough": dict(depth=2, consts={"GenSet": '"full"'})})],
         replays=[dict(mode="app", controls="", swap=False)]),
+    "DISCARD": dict(   # steps whose branch is dropped (failed multi-message tx, simulation) between committed ones
+        mc=("MC_Discard", "MC_Discard.cfg", {"quick": {"MaxDepth": "4"}, "thorough": {"MaxDepth": "5"}}),
+        gens=[("Gen_Discard", "Gen_Discard.cfg", "bfs", {"quick": dict(depth=3, consts={}), "thorough": dict(depth=4, consts={})}),
+              ("Gen_Discard", "Gen_Discard.cfg", "sim", {"quick": dict(num=100, depth=8, consts={}, seeds=1),
+                                                      "thorough": dict(num=1500, depth=12, consts={}, seeds=2)})],
+        replays=[dict(mode="app", controls="", swap=False)]),
     "BIGSEQ": dict(
         mc=("MC_FeesBig", "MC_FeesBig.cfg", {"quick": {"Ks": "{64}"}, "thorough": {"Ks": "{64, 255}"}}),
         gens=[("Gen_BigSeq", "Gen_BigSeq.cfg", "bfs", {"quick": dict(depth=1, consts={}), "thorough": dict(depth=1, consts={})})],
@@ -132,7 +138,7 @@ PROPS = {
                 rule="non-trivial = a successful orbiter transfer (success acknowledgement); distinct = distinct (abstract pre-state, abstract input)"),
     "C11": dict(families=["DUST", "FUNDS"], groups=["ack", "bal", "stats", "xfers"], level="model_checking",
                 rule="non-trivial = an orbiter packet received while the orbiter account holds coins, with the paired control run on the emptied account executed; distinct = distinct (pre-state, input)"),
-    "C12": dict(families=["FUNDS", "STATS", "ORDER"], groups=["stats"], level="model_checking",
+    "C12": dict(families=["FUNDS", "STATS", "ORDER", "DISCARD"], groups=["stats"], level="model_checking",
                 rule="non-trivial = a successful orbiter transfer (statistics must change by exactly that transfer); all other steps are checked for 'unchanged'; distinct = distinct (pre-state, input)"),
     "C03": dict(families=["FAULT", "FUNDS"], groups=["ack", "fired", "xfers", "events"], level="fault_enumeration", exhaustive=True,
                 rule="FAULT: every (payload shape x armed fault set x clean/dusty state) is one execution with fault wrappers around the real dependencies; FUNDS: naturally occurring failures; non-trivial = a reception in which an armed fault actually fired or the transfer was refused; distinct = distinct (pre-state, input incl. fault set)"),
@@ -142,7 +148,7 @@ PROPS = {
                 rule="TLC enumerates the finite grid templates x JSON paths x mutations completely; unstructured classes (random bytes as packet data, random memo bytes, random JSON under the real field names, extreme amounts/denoms/attribute values) are seeded-random representatives; each is one packet through the full app under recover(); non-trivial = every such packet; distinct = distinct abstract input"),
     "C20": dict(families=["IDENT"], groups=["ident"], level="model_checking", exhaustive=True,
                 rule="one evaluation = one (protocol, counterparty string) pair sent through every identifier entry point; the evidence counts steps (batches of all strings per protocol and pre-state); non-trivial = every batch; distinct = distinct (pre-state, protocol)"),
-    "C17": dict(families=["GENESIS", "PAUSE"], groups=["genesis", "pause", "params", "stats"], level="model_checking", props=["C17", "C17b", "C17c"],
+    "C17": dict(families=["GENESIS", "PAUSE", "DISCARD"], groups=["genesis", "pause", "params", "stats"], level="model_checking", props=["C17", "C17b", "C17c"],
                 rule="non-trivial = a genesis document accepted by validation (must initialise), or a re-import step inside a history (export -> validate -> init on a cleared store -> export must be the identity); distinct = distinct (pre-state, input)"),
     "C15": dict(families=["PARSE", "REQ", "FEES"], groups=["parse"], level="model_checking", exhaustive=True,
                 rule="every document of the mutation grid (incl. unknown fields at every level, extra/duplicated root keys, wrong type URLs), of the (protocol id x attribute type x action id) grid and of the fee grid is handed to the real parser twice (acceptance, purity) and, when the public constructors accept the abstract payload, marshalled -> parsed -> compared -> re-marshalled; non-trivial = every such document; distinct = distinct abstract input"),
@@ -158,13 +164,13 @@ PROPS = {
                 rule="every grid point (amount x fee-entry list) is one packet through the real application; non-trivial = the payload carries a fee action that parses; distinct = distinct abstract input"),
     "C05": dict(families=["REQ"], groups=["ack", "req"], level="model_checking", exhaustive=True,
                 rule="every grid point (protocol id x attribute type x attribute values x pre-action) is one packet, executed once with recording wrappers around the real bridge servers and once through the simapp wiring; non-trivial = a successful transfer (request compared) or a mismatched/unrouted payload (must be refused); distinct = distinct abstract input x wiring"),
-    "C08": dict(families=["PAUSE", "BATCH"], groups=["ack", "pause"], level="model_checking",
+    "C08": dict(families=["PAUSE", "BATCH", "DISCARD"], groups=["ack", "pause"], level="model_checking",
                 rule="non-trivial = a transfer with a parseable payload received while some protocol/destination is paused, or a pause/unpause message; distinct = distinct (pre-state, input)"),
-    "C09": dict(families=["PAUSE"], groups=["ack", "pause"], level="model_checking",
+    "C09": dict(families=["PAUSE", "DISCARD"], groups=["ack", "pause"], level="model_checking",
                 rule="non-trivial = a transfer with a parseable payload received while some action is paused, or a pause/unpause-action message; distinct = distinct (pre-state, input)"),
     "C10": dict(families=["PAUSE", "AUTHMOD"], groups=["ack", "pause", "params", "stats", "bal"], level="model_checking",
                 rule="non-trivial = any authority message (every RPC x signer class x body class); distinct = distinct (pre-state, input)"),
-    "C18": dict(families=["PAUSE", "DUST"], groups=["ack", "params"], level="model_checking",
+    "C18": dict(families=["PAUSE", "DUST", "DISCARD"], groups=["ack", "params"], level="model_checking",
                 rule="non-trivial = a transfer with a non-empty passthrough payload, or an UpdateParams message; distinct = distinct (pre-state, input)"),
 }
 
